@@ -12,6 +12,7 @@
 #include "upipe-modules/upipe_setflowdef.h"
 #include "upipe-modules/upipe_dup.h"
 #include "upipe-modules/upipe_queue_sink.h"
+#include "upipe-modules/upipe_segment_source.h"
 #include "upipe-modules/upipe_queue_source.h"
 #include "upipe-ts/upipe_ts_align.h"
 #include "upipe-framers/upipe_auto_framer.h"
@@ -460,6 +461,15 @@ static void *init(void)
         st->p2 = upipe_void_alloc(upipe_idem_mgr_alloc(), px_probe(fx));
         break;
     }
+    case 7:
+        /* the real segment-source bin (helper_bin_output, no inner pipe yet) after upipe_attach_uclock: its own uclock request sits
+         * in the bin's request list and follows the bin's output; nothing can be registered *on* it (no inner pipe), so the head has
+         * no request in this topology: the providers' books are the oracle */
+        st->p1 = upipe_void_alloc(upipe_seg_src_mgr_alloc(), px_probe(fx));
+        assert(st->p1);
+        ubase_assert(upipe_attach_uclock(st->p1));
+        st->p2 = upipe_void_alloc(upipe_idem_mgr_alloc(), px_probe(fx));
+        break;
     case 6:
         st->p1 = upipe_void_alloc(&ubm_mgr, px_probe(fx));
         assert(st->p1);
@@ -467,7 +477,7 @@ static void *init(void)
         st->p2 = upipe_void_alloc(upipe_idem_mgr_alloc(), px_probe(fx));
         break;
     }
-    st->p1_inner = g_topo < 4 || g_topo == 6;
+    st->p1_inner = g_topo < 4 || g_topo == 6;   /* (topology 7: nothing can be registered on P1) */
     assert(st->p1 && st->p2);
     if (g_env) {
         ubase_assert(upipe_set_output(st->p1, st->qsink));
@@ -508,7 +518,7 @@ static bool enabled_cb(void *vst, int op)
     if (op == OP_PROVIDE_T1)
         return st->fx.sinks[1].nreqs > 0;
     if (op == OP_P1_FLOWDEF)
-        return g_topo >= 4;
+        return g_topo >= 4 && g_topo != 7;
     if (op == OP_P1_FLOWDEF2)
         return g_topo == 5;
     if (op >= OP_PUMP0 && op <= OP_PUMP2) {
@@ -604,6 +614,21 @@ static void check_routing(struct st *st, const char *when)
     for (int k = 0; k < 2; k++)
         if (st->fx.sinks[k].unreg_unknown)
             FAIL(st, "unregister-of-unknown-request", "%s: provider T%d was asked to unregister a request it does not hold", when, k);
+    if (g_topo == 7 && g_tprov == 0) {
+        /* the bin's own uclock request: held once by the provider its output reaches, by nobody else, by nobody once P1 is gone */
+        int want = st->p1 != NULL && st->p1_out != 0 ? reached_provider(st) : -1;
+        for (int k = 0; k < 2; k++) {
+            int n = 0;
+            for (int i = 0; i < st->fx.sinks[k].nreqs; i++)
+                n += st->fx.sinks[k].reqs[i]->type == UREQUEST_UCLOCK;
+            if (n != (k == want ? 1 : 0)) {
+                char sg[80];
+                snprintf(sg, sizeof(sg), "own-request:%s:uclock", n > (k == want ? 1 : 0) ? "not-withdrawn" : "not-forwarded");
+                FAIL(st, sg, "%s: provider T%d holds %d uclock registration(s) of the bin, expected %d (P1 -> %s, P2 -> %s)", when, k, n, k == want ? 1 : 0,
+                     st->p1_out == 0 ? "none" : st->p1_out == 1 ? "P2" : "T1", st->p2_out == 0 ? "none" : st->p2_out == 1 ? "T0" : "T1");
+            }
+        }
+    }
 }
 
 /* topology 6: what P1 requires for itself travels through its output helper like the requests of the head; and what
